@@ -3,6 +3,7 @@ package qf1006
 import (
 	"go/ast"
 	"go/token"
+	"go/types"
 
 	"honnef.co/go/tools/analysis/code"
 	"honnef.co/go/tools/analysis/edit"
@@ -46,7 +47,14 @@ var checkForLoopIfBreak = pattern.MustParse(`(ForStmt nil nil nil if@(IfStmt nil
 func run(pass *analysis.Pass) (any, error) {
 	for node, m := range code.Matches(pass, checkForLoopIfBreak) {
 		pos := node.Pos() + token.Pos(len("for"))
-		r := astutil.NegateDeMorgan(m.State["cond"].(ast.Expr), false)
+		cond := m.State["cond"].(ast.Expr)
+		var r ast.Expr
+		if hasFloats(pass, cond) {
+			// !(a < b) is not a >= b when either operand is NaN
+			r = &ast.UnaryExpr{Op: token.NOT, X: cond}
+		} else {
+			r = astutil.NegateDeMorgan(cond, false)
+		}
 
 		// FIXME(dh): we're leaving behind an empty line when we
 		// delete the old if statement. However, we can't just delete
@@ -58,4 +66,21 @@ func run(pass *analysis.Pass) (any, error) {
 				edit.Delete(m.State["if"].(ast.Node)))))
 	}
 	return nil, nil
+}
+
+// hasFloats reports whether any subexpression is of type float.
+func hasFloats(pass *analysis.Pass, expr ast.Expr) bool {
+	found := false
+	ast.Inspect(expr, func(node ast.Node) bool {
+		if expr, ok := node.(ast.Expr); ok {
+			if typ := pass.TypesInfo.TypeOf(expr); typ != nil {
+				if basic, ok := typ.Underlying().(*types.Basic); ok && (basic.Info()&types.IsFloat) != 0 {
+					found = true
+					return false
+				}
+			}
+		}
+		return true
+	})
+	return found
 }
